@@ -318,6 +318,22 @@ theorem C06_enum_discr_key_counterexample : ¬ C06_enum_discr_key_full := by
   revert this
   decide
 
+/-- FULL: every unsigned enumerator constant of a C-like enum gets a key (so the variant can be shown).  FALSE. -/
+def C06_cenum_const_key_full : Prop := ∀ raw : Nat, raw < 2 ^ 64 → constKey raw = some (raw : Int)
+
+def FitsI64 (raw : Nat) : Prop := raw < 2 ^ 63
+instance (raw : Nat) : Decidable (FitsI64 raw) := by unfold FitsI64; exact inferInstance
+
+theorem C06_cenum_const_key_partial (raw : Nat) (h : FitsI64 raw) : constKey raw = some (raw : Int) := by
+  unfold FitsI64 at h; simp [constKey, h]
+
+/-- `#[repr(u64)] enum B { P = 1, Q = 9223372036854775808 }`: Q gets no key and is dropped from the table -/
+theorem C06_cenum_const_key_counterexample : ¬ C06_cenum_const_key_full := by
+  intro h
+  have := h 9223372036854775808 (by decide)
+  revert this
+  decide
+
 /-- FULL: every integer discriminant the decoder can read selects by its numeric value.  FALSE: 128-bit discriminants. -/
 def C06_enum_select_full : Prop :=
   ∀ (k : IK) (v : Int), -(2 ^ 63 : Int) ≤ v → v < 2 ^ 63 → (Scalar.num k v).asNumber = some v
